@@ -1,7 +1,12 @@
 use log::trace;
 use mio_extras::timer::{Timeout, Timer};
 use std::fmt::Debug;
+#[cfg(not(amiquip_verif))]
 use std::time::{Duration, Instant};
+#[cfg(amiquip_verif)]
+use amiquip_simrt::time::Instant;
+#[cfg(amiquip_verif)]
+use std::time::Duration;
 
 #[derive(Debug, Copy, Clone, PartialEq)]
 pub enum HeartbeatState {
